@@ -1163,7 +1163,35 @@ func c18LargeRuns(out *zzverif.Out, r *zzverif.Rng, fix bool, rounds int) {
 
 // c18FixMask: which repairs the tree under test contains (VERIF_C18_FIX): bit 0 = F18 max-shift,
 // bit 1 = F18c (greedy reports all -Inf as an error).  Passed to the oracle on every op.
-func c18FixMask() int { return zzverif.EnvInt("VERIF_C18_FIX", 0) }
+func c18FixMask() int {
+	if os.Getenv("VERIF_C18_FIX") != "" {
+		return zzverif.EnvInt("VERIF_C18_FIX", 0)
+	}
+	if c18Probed < 0 {
+		c18Probed = c18ProbeFix()
+	}
+	return c18Probed
+}
+
+var c18Probed = -1
+
+// c18ProbeFix asks the tree under test which variant of the model it implements, on the two witness
+// inputs of the findings: F18 (temperature 1, logits [+Inf, 0]: the pinned code answers "logits sum to
+// NaN", the repaired one token 0) and F18c (temperature 0, all logits -Inf: the pinned code answers token
+// 0, the repaired one an error).  The check turns the answer into Generated/C18_Variant.lean, and
+// Tie/C18.lean requires the repaired variant (`tree_is_fixed`).
+func c18ProbeFix() int {
+	m := 0
+	s := NewSampler(1, 0, 1, 0, 1, nil)
+	if r := c18CallSample(&s, []float32{c18PosInf, 0}); r.err == nil && r.pnc == nil {
+		m |= 1
+	}
+	g := NewSampler(0, 0, 1, 0, 1, nil)
+	if r := c18CallSample(&g, []float32{c18NegInf, c18NegInf}); r.err != nil {
+		m |= 2
+	}
+	return m
+}
 
 // c18FixedSrc is a rand.Source that always returns the same word.
 type c18FixedSrc uint64
@@ -1638,6 +1666,7 @@ func TestVerifC18(t *testing.T) {
 	out := zzverif.NewOut()
 	defer out.Close()
 	fix := c18FixMask()&1 != 0
+	os.WriteFile(zzverif.OutDir()+"/variant.txt", []byte(fmt.Sprintf("fix=%d probed=%d\n", c18FixMask(), c18ProbeFix())), 0o644)
 	if rp := os.Getenv("VERIF_REPLAY"); rp != "" {
 		b, err := os.ReadFile(rp)
 		if err != nil {
